@@ -53,6 +53,13 @@ def r2_no_follow_descent(ctx):
             out.append(holds("C13.R2", "remove_all:descent-flags", t.where(), "descent open is O_DIRECTORY (O_NOFOLLOW|O_CLOEXEC forced by the wrapper)"))
         else:
             out.append(violated("C13.R2", "remove_all:descent-flags", t.where(), "descent open flags: %r" % v))
+    # ... which is only as good as the wrapper: it has to force O_NOFOLLOW for every flag combination
+    from .c05 import r2_forced_flags
+    for i in r2_forced_flags(ctx):
+        if i.rule == "C05.R2b":
+            i.rule = "C13.R2"
+            i.key = "wrapper:" + i.key
+            out.append(i)
     # recursion passes the opened fd and a scanned name
     rec = list(b.calls(RA))
     if not rec:
